@@ -336,8 +336,17 @@ ValidGraph(E, g) ==
      /\ Distinct(NamesOf(eg.quant)) /\ {eg.quant[x].name : x \in DOMAIN eg.quant} \subseteq Defs(eg)
      /\ \A x \in DOMAIN eg.quant : ~BEmpty(eg.quant[x].q)
      /\ isF => (eg.inits = <<>> /\ eg.quant = <<>>)
-     /\ ~isF => /\ \A x \in DOMAIN eg.ins : WellTyped(eg.ins[x].info)
-                /\ \A x \in DOMAIN eg.outs : WellTyped(eg.outs[x].info)
+     \* the inputs and outputs of the main graph are typed; those of a control-flow body may leave the type to the
+     \* enclosing node (and still carry a doc string / metadata)
+     /\ eg.kind = "main" => /\ \A x \in DOMAIN eg.ins : WellTyped(eg.ins[x].info)
+                            /\ \A x \in DOMAIN eg.outs : WellTyped(eg.outs[x].info)
+     \* (an untyped entry of a name that has an initializer comes back typed by the tensor - "value-info is added for
+     \*  initializers" - so such names are typed here)
+     /\ eg.kind = "sub" => /\ \A x \in DOMAIN eg.ins : WellTyped(eg.ins[x].info)
+                                  \/ (BEmpty(eg.ins[x].info.sh) /\ eg.ins[x].name \notin InitNames(eg))
+                           /\ \A x \in DOMAIN eg.outs : WellTyped(eg.outs[x].info)
+                                  \/ (BEmpty(eg.outs[x].info.sh) /\ eg.outs[x].name \notin InitNames(eg))
+     /\ ~isF =>
                 \* one value, one description: carriers of the same name agree
                 /\ \A x \in DOMAIN eg.ins : \A y \in DOMAIN eg.outs : eg.ins[x].name = eg.outs[y].name => eg.ins[x].info = eg.outs[y].info
                 /\ \A x, y \in DOMAIN eg.outs : eg.outs[x].name = eg.outs[y].name => eg.outs[x].info = eg.outs[y].info
